@@ -64,6 +64,10 @@ type Unit struct {
 	WriteTimeoutMS int `json:"write_timeout_ms,omitempty"` // http.Server.WriteTimeout carried by the request context (0 = none)
 	CtxTimeoutMS   int `json:"ctx_timeout_ms,omitempty"`   // deadline on the request context (0 = none)
 	BadBody        int `json:"bad_body,omitempty"`         // http: 1 = syntactically broken body
+	// CancelNS (http): absolute virtual instant at which the request context is cancelled from
+	// outside (client went away / outer handler gave up); 0 = never. Unlike a deadline this
+	// cancels the handler's contexts WITHOUT the handler's own timeout timer being due.
+	CancelNS int64 `json:"cancel_ns,omitempty"`
 }
 
 type Plan struct {
@@ -456,6 +460,17 @@ func Gen(r *simcore.Rand, tier string) any {
 			if r.Bool(0.04) {
 				u.BadBody = 1
 			}
+			if r.Bool(0.3) {
+				switch {
+				case deadline > 0 && r.Bool(0.5):
+					u.CancelNS = pickTime(r, base, deadline)
+					if u.CancelNS == base {
+						u.CancelNS = base + 1
+					}
+				default:
+					u.CancelNS = base + 1 + int64(r.Intn(30))*10*ms
+				}
+			}
 			if deadline > maxDl {
 				maxDl = deadline
 			}
@@ -515,6 +530,11 @@ func Shrink(pl any) []any {
 		if u.CtxTimeoutMS != 0 {
 			q := clonePlan(p)
 			q.Units[i].CtxTimeoutMS = 0
+			out = append(out, q)
+		}
+		if u.CancelNS != 0 {
+			q := clonePlan(p)
+			q.Units[i].CancelNS = 0
 			out = append(out, q)
 		}
 		for j := range u.Entries {
